@@ -1,6 +1,8 @@
 package nfs
 
 import (
+	"time"
+
 	"github.com/goose-lang/primitive/disk"
 
 	"github.com/mit-pdos/go-journal/buf"
@@ -11,6 +13,7 @@ import (
 	"github.com/mit-pdos/go-nfsd/dir"
 	"github.com/mit-pdos/go-nfsd/fstxn"
 	"github.com/mit-pdos/go-nfsd/inode"
+	"github.com/mit-pdos/go-nfsd/nfstypes"
 	"github.com/mit-pdos/go-nfsd/shrinker"
 	"github.com/mit-pdos/go-nfsd/super"
 	"github.com/mit-pdos/go-nfsd/util/stats"
@@ -21,6 +24,9 @@ type Nfs struct {
 	shrinkst *shrinker.ShrinkerSt
 	// support unstable writes
 	Unstable bool
+	// write verifier: differs between server instances, so that a client can
+	// tell that unstable writes may have been lost
+	verf nfstypes.Writeverf3
 	// statistics
 	stats [NUM_NFS_OPS]stats.Op
 }
@@ -45,6 +51,10 @@ func MakeNfs(d disk.Disk) *Nfs {
 		fsstate:  st,
 		shrinkst: shrinker.MkShrinkerSt(st),
 		Unstable: true,
+	}
+	boot := uint64(time.Now().UnixNano())
+	for i := 0; i < len(nfs.verf); i++ {
+		nfs.verf[i] = byte(boot >> (8 * uint(i)))
 	}
 	if i.Kind == 0 {
 		nfs.makeRootDir()
